@@ -64,9 +64,15 @@ def gen_case(rng, params, index):
     srcs = []
     model = {}
     files = {}
+    if nsrc >= 2 and rng.chance(0.25):
+        # the same file name in two directories of one invocation: each source still has its own outputs
+        stems[1] = stems[0]
     for st in stems:
         d = rng.choice(dirs)
         rel = (d + "/" if d else "") + st + ".qml"
+        while rel in model:
+            d = rng.choice(dirs)
+            rel = (d + "/" if d else "") + st + ".qml"
         doc = docs.gen_doc(rng, want_dynamic=not no_dyn or rng.chance(0.15))
         model[rel] = doc
         files["proj/" + rel] = docs.render(doc)[0]
